@@ -18,8 +18,9 @@ def rules_text(evs, loads):
     return "\n".join(out) + "\n"
 
 
-def materialise(scn, wd):
+def materialise(scn, wd, payload=False):
     rules, data = [], []
+    rtexts, dtexts = [], []
     for i, k in enumerate(scn["rules"]):
         if k == "ok":
             txt = rules_text(scn["ev"][i], scn["data"])
@@ -28,13 +29,22 @@ def materialise(scn, wd):
         else:
             txt = "# only a comment\n"
         rules.append(wd.write("r%d.guard" % (i + 1), txt))
+        rtexts.append(txt)
     for j, k in enumerate(scn["data"]):
-        data.append(wd.write("d%d.json" % (j + 1), ('{"id": %d}' % (j + 1)) if k == "ok" else '{"id": '))
+        dtxt = ('{"id": %d}' % (j + 1)) if k == "ok" else '{"id": '
+        data.append(wd.write("d%d.json" % (j + 1), dtxt))
+        dtexts.append(dtxt)
     args = ["validate"]
-    for r in rules:
-        args += ["-r", r]
-    for d in data:
-        args += ["-d", d]
+    stdin = None
+    if payload:
+        args += ["--payload"]
+        stdin = json.dumps({"rules": rtexts, "data": dtexts})
+        data = ["DATA_STDIN[%d]" % (j + 1) for j in range(len(dtexts))]
+    else:
+        for r in rules:
+            args += ["-r", r]
+        for d in data:
+            args += ["-d", d]
     if scn["conflict"]:
         args += ["-i", wd.write("p1.json", '{"id": 0}')]
     else:
@@ -43,7 +53,7 @@ def materialise(scn, wd):
         args += ["--structured", "-o", "json", "-S", "none"]
     elif scn["path"] == "junit":
         args += ["--structured", "-o", "junit", "-S", "none"]
-    return args, data
+    return args, data, stdin
 
 
 def run_scenarios(res, out, limit=None):
@@ -55,15 +65,16 @@ def run_scenarios(res, out, limit=None):
     wd = cli.Workdir("c06")
     n = 0
     for scn in cases:
-        args, data = materialise(scn, wd)
-        rc, so, se = cli.run(args)
+        payload = (n % 3 == 2)
+        args, data, stdin = materialise(scn, wd, payload)
+        rc, so, se = cli.run(args, stdin=stdin)
         n += 1
         want = scn["exit"]
         got = rc if rc >= 0 else rc
         key = None
         if got != want:
             kind = "panic" if ("panicked" in se) else "exit-code"
-            key = "%s:%s:want-%d-got-%d" % (kind, scn["path"], want, got)
+            key = "%s:%s%s:want-%d-got-%d" % (kind, scn["path"], "/payload" if payload else "", want, got)
         elif scn["path"] == "structured" and not scn["aborted"]:
             # the report lists exactly the evaluated pairs with their statuses
             try:
@@ -73,7 +84,7 @@ def run_scenarios(res, out, limit=None):
                         continue
                     sts = [scn["ev"][i][j] for i, k in enumerate(scn["rules"]) if k == "ok"]
                     want_st = "FAIL" if "FAIL" in sts else ("PASS" if "PASS" in sts else "SKIP")
-                    rep = reps.get(os.path.realpath(dname))
+                    rep = reps.get(dname if payload else os.path.realpath(dname))
                     if rep is None or rep["status"] != want_st:
                         key = "structured-report:status-differs"
             except ValueError:
